@@ -58,7 +58,7 @@ PROPS = {
         verus=[('u_filter', [r'^Lexer::parse_path$', r'^Parser::to_cmp_op$', r'^Lexer::greater_or_less$', r'^parse_id$', r'^parse_literal$']),
                ('u_enc', [r'^Number::to_zinc$', r'^write_quoted_str$', r'^Str::to_zinc$']),
                ('u_fprint', [r'::fmt$', r'^lemma_op_pieces$', r'^(fp_|join_|path_text|op_text)'], dict(one_spelling=True)),
-               ('u_fgram', [r'^Parser::', r'^lemma_join_', r'^lemma_drop_last_push$'])],
+               ('u_fgram', [r'^Parser::', r'^lemma_join_', r'^lemma_drop_last_push$'], dict(beyond_property='the token-grammar contract also rejects a parser that starts to accept text which is not a filter, about which the property is silent'))],
         kani=[],
         witness='enum:filter-print-parse',
         design_ref='DESIGN.md section 4, C08',
@@ -219,7 +219,7 @@ PROPS = {
         title='Filter evaluation follows the Haystack filter semantics',
         verus=[('u_resolver', [r'^Dict::resolve_for$', r'^Path::', r'^lemma_walk_null_stays$', r'^Value::is_null$', r'^Grid::filter_all$', r'^Grid::filter$']),
                ('u_feval', [r'^(Filter|Or|And|Term|Parens|Has|Missing|Cmp)::eval$', r'^lemma_all_terms_false$', r'^lemma_any_and_true$', r'^Value::has_value$', r'^ev_|^any_and$|^all_terms$']),
-               ('u_fgram', [r'^Parser::(parse|parse_or|parse_and|parse_term|parse_parens|parse_nested_parens)$', r'^lemma_join_'])],
+               ('u_fgram', [r'^Parser::(parse|parse_or|parse_and|parse_term|parse_parens|parse_nested_parens)$', r'^lemma_join_'], dict(beyond_property='the token-grammar contract also rejects a parser that starts to accept text which is not a filter, about which the property is silent'))],
         kani=[dict(harness='k_cmp_eq', klass='complete', schema='raw', family='filter-cmp:eq', target='filter::nodes::cmp_values(Eq)', timeout=400),
               dict(harness='k_cmp_ne', klass='complete', schema='raw', family='filter-cmp:ne', target='filter::nodes::cmp_values(NotEq)', timeout=400),
               dict(harness='k_cmp_lt', klass='complete', schema='raw', family='filter-cmp:lt', target='filter::nodes::cmp_values(LessThan)', timeout=400),
@@ -312,7 +312,7 @@ PROPS = {
         title='Zinc text conforms to the Project Haystack grammar in both directions',
         verus=[('u_zparse', [r'^parse_str_escape$', r'^parse_str_unicode_escape$', r'^parse_str$', r'^Lexer::read$', r'^parse_literal$', r'^parse_id$', r'^lemma_lit_run_bytes$', r'^parse_unit$', r'^is_unit_char$', r'^parse_uri$', r'^parse_time_zone$']),
                ('u_enc', [r'^write_quoted_str$', r'^write_str$', r'::to_zinc$', r'::zinc_encode$', r'^list_to_zinc$', r'^write_dict_tags$', r'^Column::to_zinc$', r'^Dict::to_zinc$', r'^Grid::to_zinc$', r'^Value::to_zinc$', r'^enc_(value|items|tag|tags|meta|col|cols|cells|rows|grid)$', r'^grid_head$', r'^grid_mid$', r'^dict_find$']),
-               ('u_zgram', [r'^Parser::parse_value$', r'^Parser::parse_nested_value$', r'^parse_list$', r'^parse_dict$', r'^parse_dict_parts$', r'^RowParser::parse_row$', r'^RowParser::consume_end$', r'^parse_nested_grid_end$', r'^parse_grid_ver$', r'^parse_grid_meta$', r'^lemma_(li|di|ri)_push$', r'_prefix$'])],
+               ('u_zgram', [r'^Parser::parse_value$', r'^Parser::parse_nested_value$', r'^parse_list$', r'^parse_dict$', r'^parse_dict_parts$', r'^RowParser::parse_row$', r'^RowParser::consume_end$', r'^parse_nested_grid_end$', r'^parse_grid_ver$', r'^parse_grid_meta$', r'^lemma_(li|di|ri)_push$', r'_prefix$'], dict(beyond_property='the token-grammar contract also rejects a decoder that starts to accept text which is not a Zinc sentence, about which the property is silent'))],
         kani=[dict(harness='k_scanner_classes', klass='complete', schema=['u8'], family=None, target='Scanner::is_* byte classes'),
               dict(harness='k_unit_char_class', klass='complete', schema=['u8'], family=None, target='zinc number::is_unit_char'),
               dict(harness='k_u8_classes', klass='complete', schema=['u8'], family=None, target='u8::is_ascii_*')],
@@ -419,7 +419,7 @@ PROPS = {
                              r'^parse_str$', r'^parse_str_unicode_escape$', r'^lemma_str_body_plain$', r'^lemma_hex4_value$', r'^lemma_str_body_char$',
                              r'^lemma_str_body_enc$', r'^lemma_str_roundtrip$', r'^parse_ref$', r'^lemma_ref_run_prefix$', r'^lemma_ref_roundtrip$', r'^parse_uri$', r'^lemma_uri_body_plain$', r'^lemma_uri_body_char$', r'^lemma_uri_body_enc$', r'^lemma_uri_roundtrip$', r'^parse_symbol$', r'^lemma_symbol_roundtrip$', r'^parse_xstr_body$', r'^lemma_lit_run_prefix$', r'^lemma_xstr_roundtrip$']),
                ('u_enc', [r'^write_quoted_str$', r'^Str::to_zinc$', r'^Ref::to_zinc$', r'^Uri::to_zinc$', r'^Symbol::to_zinc$', r'^XStr::to_zinc$', r'^lemma_str_escape_inverse$', r'^Marker::to_zinc$', r'^Remove::to_zinc$', r'^Na::to_zinc$', r'^Bool::to_zinc$', r'^Number::to_zinc$']),
-               ('u_zgram', [r'^Parser::parse_value$', r'^Parser::parse_nested_value$', r'^parse_list$', r'^parse_dict$', r'^parse_dict_parts$', r'^RowParser::parse_row$', r'^parse_grid_ver$', r'^parse_grid_meta$'])],
+               ('u_zgram', [r'^Parser::parse_value$', r'^Parser::parse_nested_value$', r'^parse_list$', r'^parse_dict$', r'^parse_dict_parts$', r'^RowParser::parse_row$', r'^parse_grid_ver$', r'^parse_grid_meta$'], dict(beyond_property='the token-grammar contract also rejects a decoder that starts to accept text which is not a Zinc sentence, about which the property is silent'))],
         kani=[dict(harness='k_zinc_keywords', klass='complete', schema=['u8'], family=None, target='to_zinc of Marker/Remove/Na/Bool')],
         witness=['enum:zinc-roundtrip-scalars', 'enum:zinc-escape'],
         design_ref='DESIGN.md section 4, C01',
